@@ -175,12 +175,15 @@ impl Harness for C16 {
     let desc;
     let d = Sym::var_in("d", 1, 60, 7);
     match self.scen {
-      "interval" | "timer" => {
-        let k = if self.scen == "timer" { 1 } else { 1 + sym::choose("k", 3) };
-        let (log, _sub) = if self.scen == "timer" {
-          subscribe_timed(&observables::timer(dur(&d), nt()), |_| 0)
-        } else {
-          subscribe_timed(&observables::interval(dur(&d), nt()).take(k), |x: u64| x as i64)
+      "interval" | "timer" | "interval_default" | "timer_default" => {
+        let is_timer = self.scen.starts_with("timer");
+        let k = if is_timer { 1 } else { 1 + sym::choose("k", 3) };
+        // the default scheduler runs the timer loop synchronously inside subscribe
+        let (log, _sub) = match self.scen {
+          "timer" => subscribe_timed(&observables::timer(dur(&d), nt()), |_| 0),
+          "timer_default" => subscribe_timed(&observables::timer(dur(&d), schedulers::default_scheduler()), |_| 0),
+          "interval_default" => subscribe_timed(&observables::interval(dur(&d), schedulers::default_scheduler()).take(k), |x: u64| x as i64),
+          _ => subscribe_timed(&observables::interval(dur(&d), nt()).take(k), |x: u64| x as i64),
         };
         vf::sleep(Duration::from_nanos(BIG));
         let l = log.lock().unwrap().clone();
@@ -191,7 +194,7 @@ impl Harness for C16 {
           for j in 0..k {
             let exp_t = sum_of(&vec![d.clone(); j + 1]);
             match &l[j] {
-              TRec::Next(v, t) if *v == j as i64 || self.scen == "timer" => eqs.push(sym::t_eq(t.t, exp_t.t)),
+              TRec::Next(v, t) if *v == j as i64 || is_timer => eqs.push(sym::t_eq(t.t, exp_t.t)),
               _ => structural = Some(format!("item {} wrong: [{}]", j, trec_short(&l))),
             }
           }
@@ -317,7 +320,7 @@ impl Harness for C16 {
   }
 }
 
-const SCENS: [&str; 6] = ["interval", "timer", "delay", "timeout", "sample", "debounce"];
+const SCENS: [&str; 8] = ["interval", "timer", "interval_default", "timer_default", "delay", "timeout", "sample", "debounce"];
 
 pub fn plan(tier: Tier, _seed: u64) -> Plan {
   let h: Vec<Arc<dyn Harness>> = SCENS.iter().map(|s| Arc::new(C16 { scen: s }) as Arc<dyn Harness>).collect();
